@@ -332,16 +332,17 @@ def spectrum_defect(out, data, rtol=1e-6):
     if out.shape != data.shape:
         return ("shape", "shape %s instead of %s" % (out.shape, data.shape))
     n = data.shape[1]
-    idx = interior_bins(n)
+    idx = np.array(interior_bins(n), dtype=int)
     for i in range(data.shape[0]):
         if not np.all(np.isfinite(out[i])):
             return ("nan", "row %d is not finite" % i)
         a, b = amplitudes(out[i]), amplitudes(data[i])
         scale = max(float(b.max()), 1e-300)
-        for k in idx:
-            if abs(a[k] - b[k]) > rtol * scale:
-                return ("value", "row %d, frequency %d: amplitude %.9g "
-                        "instead of %.9g" % (i, k, a[k], b[k]))
+        bad = np.nonzero(np.abs(a[idx] - b[idx]) > rtol * scale)[0]
+        if len(bad):
+            k = int(idx[bad[0]])
+            return ("value", "row %d, frequency %d: amplitude %.9g "
+                    "instead of %.9g" % (i, k, a[k], b[k]))
     return None
 
 
@@ -410,6 +411,74 @@ def walk_defect(sur, states, twins):
                     "step %d: %r follows %r but is neither its successor nor "
                     "the successor of one of its twins"
                     % (j, sur[j], sur[j - 1]))
+    return None
+
+
+# --- the same oracles for a few hundred states (numpy, still by definition) --
+
+
+def embed_np(x, dim, tau):
+    x = np.asarray(x, dtype=float)
+    n = len(x) - (dim - 1) * tau
+    return np.stack([x[d * tau:d * tau + n] for d in range(dim)], axis=1)
+
+
+def recurrence_sup_np(states, thr, strict):
+    """(R, on_threshold) for an (n, dim) array of states."""
+    S = np.asarray(states, dtype=float)
+    D = np.abs(S[:, None, :] - S[None, :, :]).max(axis=2)
+    R = (D < thr) if strict else (D <= thr)
+    return R.astype(np.int8), bool(np.any(D == thr))
+
+
+def twins_np(R, min_dist):
+    """twins[i] = sorted j with identical row of R and |i-j| > min_dist."""
+    R = np.asarray(R)
+    groups = {}
+    for i in range(len(R)):
+        groups.setdefault(R[i].tobytes(), []).append(i)
+    out = [None] * len(R)
+    for members in groups.values():
+        for i in members:
+            out[i] = [j for j in members if abs(i - j) > min_dist]
+    return out
+
+
+def walk_defect_np(sur, states, twins):
+    """walk_defect for arrays: sur (L, d), states (N, d), exact equality."""
+    sur = np.asarray(sur, dtype=float)
+    states = np.asarray(states, dtype=float)
+    if sur.ndim == 1:
+        sur = sur[:, None]
+    if states.ndim == 1:
+        states = states[:, None]
+    N = len(states)
+    if len(sur) == 0:
+        return ("empty", "empty surrogate")
+    T = np.eye(N, dtype=np.float32)
+    for k, tw in enumerate(twins):
+        if len(tw):
+            T[k, np.array(tw, dtype=int)] = 1
+    match = (sur[:, None, :] == states[None, :, :]).all(axis=2)   # (L, N)
+    foreign = np.nonzero(~match.any(axis=1))[0]
+    if len(foreign):
+        j = int(foreign[0])
+        return ("foreign-state", "step %d: %r is not a state of the original"
+                % (j, sur[j].tolist()))
+    cur = match[0]
+    for j in range(1, len(sur)):
+        reach = (cur.astype(np.float32) @ T) > 0     # cur and their twins
+        allowed = np.zeros(N, dtype=bool)
+        if reach[N - 1]:
+            allowed[:] = True                        # restart after the end
+        else:
+            allowed[1:] = reach[:-1]
+        cur = allowed & match[j]
+        if not cur.any():
+            return ("transition",
+                    "step %d: %r follows %r but is neither its successor nor "
+                    "the successor of one of its twins"
+                    % (j, sur[j].tolist(), sur[j - 1].tolist()))
     return None
 
 
